@@ -93,16 +93,22 @@ MUTANTS += [
         (UT, "    return check_range_length(file.read(length), offset, length)", "    return file.read(length)")]),
     ('c18_only_empty_is_error', 'C18', 'only an empty result counts as a short read', [
         (UT, "    if len(data) != length:", "    if len(data) == 0 and length > 0:")]),
-    ('c18_header_padded', 'C18', 'header block read tolerates a short file', [
+    ('c18_header_padded', 'C18', 'header reads tolerate a short file (missing bytes read as zero)', [
         (RD, "        self.headerbytes = self.file.read_range(self.file, 0, DISK_BLOCK_BYTES)\n",
-             "        try:\n            self.headerbytes = self.file.read_range(self.file, 0, DISK_BLOCK_BYTES)\n        except IOError:\n"
-             "            self.file.seek(0)\n            self.headerbytes = self.file.read(DISK_BLOCK_BYTES).ljust(DISK_BLOCK_BYTES, b'\\0')\n")]),
+             "        self.headerbytes = self._read_header_tolerant(DISK_BLOCK_BYTES)\n"),
+        (RD, "            self.headerbytes = self.file.read_range(self.file, 0, DISK_BLOCK_BYTES*self.n_header_blocks)\n",
+             "            self.headerbytes = self._read_header_tolerant(DISK_BLOCK_BYTES*self.n_header_blocks)\n"),
+        (RD, "    def __repr__(self):\n        return f'SgzReader({self._filename})'\n",
+             "    def _read_header_tolerant(self, n):\n        try:\n            return self.file.read_range(self.file, 0, n)\n"
+             "        except IOError:\n            if not self.local:\n                raise\n            self.file.seek(0)\n"
+             "            return self.file.read(n).ljust(n, b'\\0')\n\n"
+             "    def __repr__(self):\n        return f'SgzReader({self._filename})'\n")]),
     ('c18_footer_to_eof', 'C18', 'footer arrays read to EOF and cut, not by counted read', [
-        (RD, "                    buffer = self.file.read_range(self.file, offset, self.header_entry_length_bytes)\n                    values = np.frombuffer(buffer, dtype=np.int32)",
-             "                    if self.local:\n                        self.file.seek(offset)\n                        buffer = self.file.read()[:self.header_entry_length_bytes]\n"
-             "                        buffer = buffer[:len(buffer) - len(buffer) % 4]\n"
-             "                    else:\n                        buffer = self.file.read_range(self.file, offset, self.header_entry_length_bytes)\n"
-             "                    values = np.frombuffer(buffer, dtype=np.int32)")]),
+        (RD, "                        buffer = self.file.read_range(self.file, offset, self.header_entry_length_bytes)\n                        values = np.frombuffer(buffer, dtype=np.int32)",
+             "                        if self.local:\n                            self.file.seek(offset)\n                            buffer = self.file.read()[:self.header_entry_length_bytes]\n"
+             "                            buffer = buffer[:len(buffer) - len(buffer) % 4]\n"
+             "                        else:\n                            buffer = self.file.read_range(self.file, offset, self.header_entry_length_bytes)\n"
+             "                        values = np.frombuffer(buffer, dtype=np.int32)")]),
     ('c18_preload_unchecked', 'C18', 'preload reads the data section without length check', [
         (LD, "            self.compressed_volume = self.file.read_range(self.file, self.data_start_bytes,\n                                                          self.compressed_data_diskblocks * self.block_bytes)",
              "            if self.local:\n                self.file.seek(self.data_start_bytes)\n                self.compressed_volume = self.file.read(self.compressed_data_diskblocks * self.block_bytes)\n"
@@ -137,6 +143,48 @@ MUTANTS += [
         (RD, "        tracefild_list = self.segy_traceheader_template if tracefields is None else tracefields\n",
              "        if getattr(self, '_headers_loaded', False):\n            return\n        self._headers_loaded = True\n"
              "        tracefild_list = self.segy_traceheader_template if tracefields is None else tracefields\n")]),
+]
+
+MUTANTS += [
+    # ---------------------------------------------------------------- C07
+    ('c07_inline_reads_four_sets', 'C07', 'inline read requests four inline sets (the original defect)', [
+        (LD, "(self.chunk_bytes * self.shape_pad[1]) // 4)\n        return self._decompress(buffer, (self.blockshape[0]",
+             "min(self.chunk_bytes * self.shape_pad[1], self.compressed_data_diskblocks * self.block_bytes - il_block_offset))\n"
+             "        return self._decompress(buffer, (self.blockshape[0]")]),
+    ('c07_trace_window_reads_whole_chunk', 'C07', 'a windowed trace read fetches the whole chunk', [
+        (RD, "            min_z = self.blockshape[2] * (min_sample_id // self.blockshape[2])\n            max_z = self.blockshape[2] * ((max_sample_id + self.blockshape[2] - 1) // self.blockshape[2])\n",
+             "            min_z = 0\n            max_z = self.shape_pad[2]\n")]),
+    ('c07_zslice_unit_fetched_twice', 'C07', 'every z-slice unit is requested twice', [
+        (LD, "    def _insert_unit_into_buffer(self, buffer, buffer_start, data_offset):\n        self._insert_into_buffer(buffer, buffer_start, data_offset, self.unit_bytes)",
+             "    def _insert_unit_into_buffer(self, buffer, buffer_start, data_offset):\n        self._insert_into_buffer(buffer, buffer_start, data_offset, self.unit_bytes)\n"
+             "        self._insert_into_buffer(buffer, buffer_start, data_offset, self.unit_bytes)")]),
+    ('c07_preload_bypassed_for_crossline', 'C07', 'crossline path reads from storage although the volume is preloaded', [
+        (LD, "    def _insert_chunk_into_buffer(self, buffer, buffer_start, data_offset):\n        self._insert_into_buffer(buffer, buffer_start, data_offset, self.chunk_bytes)",
+             "    def _insert_chunk_into_buffer(self, buffer, buffer_start, data_offset):\n"
+             "        buffer[buffer_start: buffer_start + self.chunk_bytes] = self.file.read_range(\n"
+             "            self.file, self.data_start_bytes + data_offset, self.chunk_bytes)")]),
+    ('c07_header_loads_whole_arrays', 'C07', 'one trace header of a regular file loads every stored array', [
+        (RD, "                if load_all_headers or not self.structured:\n", "                if True:\n")]),
+    ('c07_2d_trace_range_grows', 'C07', '2D trace read length grows with the group number (the original defect)', [
+        (LD, "                                            * ((max_id + self.blockshape[1] - 1) // self.blockshape[1]\n                                               - min_id // self.blockshape[1]))",
+             "                                            * min((max_id + self.blockshape[1] - 1) // self.blockshape[1],\n"
+             "                                                  self.shape_pad[1] // self.blockshape[1] - min_id // self.blockshape[1]))")]),
+    ('c07_open_prefetches_first_block', 'C07', 'open also fetches the first data block', [
+        (RD, "        # Read useful info out of the SGZ header\n",
+             "        self._first_block = self.file.read_range(self.file, DISK_BLOCK_BYTES*self.n_header_blocks, DISK_BLOCK_BYTES)\n"
+             "        # Read useful info out of the SGZ header\n")]),
+    ('c07_subvolume_reads_full_traces', 'C07', 'sub-volume read ignores the sample window when fetching', [
+        (LD, "        buffer = self.read_chunk_range(min_il, min_xl, min_z,\n                                       il_units, xl_units, z_units)\n",
+             "        full = self.read_chunk_range(min_il, min_xl, 0, il_units, xl_units, self.shape_pad[2] // 4)\n"
+             "        buffer = bytearray()\n        for c in range(il_units * xl_units):\n"
+             "            start = (c * (self.shape_pad[2] // 4) + min_z // 4) * self.unit_bytes\n"
+             "            buffer += full[start:start + z_units * self.unit_bytes]\n")]),
+    ('c07_header_reads_8_bytes', 'C07', 'single header value fetched with an 8-byte read', [
+        (RD, "                        buf = self.file.read_range(self.file, v + 4*index, 4)  # A 32-bit int is 4 bytes\n                        values[v] = np.frombuffer(buf, dtype=np.int32)[0]",
+             "                        buf = self.file.read_range(self.file, v + 4*index - (4 if index else 0), 8 if index else 4)\n"
+             "                        values[v] = np.frombuffer(buf, dtype=np.int32)[-1]")]),
+    ('c07_duplicate_fields_read_again', 'C07', 'duplicate header fields fetch their shared array again (the original defect)', [
+        (RD, "                    if v not in values:\n", "                    if True:\n")]),
 ]
 
 
